@@ -94,12 +94,17 @@ StrPL(p, l)  == [k |-> "pl", p |-> p, l |-> l]
 StrBare(l)   == [k |-> "bare", l |-> l]
 StrUri(u)    == [k |-> "uri", u |-> u]
 
+(* the one local-part token of the models that contains a colon (MC_C03, run over the built-in namespaces) *)
+ColonLocal(l) == Len(l) > 0 /\ l[Len(l)] = "u:x"
 LocalStr(st, str) ==
   CASE str.k = "pl"   -> IF InTbl(st, str.p) THEN QN(str.p, st.tbl[str.p], str.l)
                          ELSE IF str.p \in DOMAIN st.prenamed
                               THEN QN(st.prenamed[str.p][1], st.prenamed[str.p][2], str.l)
                          ELSE NoQN
-    [] str.k = "bare" -> IF st.dflt # NONE THEN QN("", st.dflt, str.l) ELSE NoQN
+    \* a text with a colon is never read as a bare local name: it is cut at the first colon, and what
+    \* stands before it ("u", "b/u") is no prefix of any menu nor the beginning of a namespace URI
+    [] str.k = "bare" -> IF ColonLocal(str.l) THEN NoQN
+                         ELSE IF st.dflt # NONE THEN QN("", st.dflt, str.l) ELSE NoQN
     [] str.k = "uri"  -> Compact(st, str.u)
 
 (* valid_qualified_name(str): this manager first, then (only then) the parent. *)
